@@ -161,7 +161,7 @@ def atom_vars(a):
             elif isinstance(x, str) and "«" in x:
                 import re as _re
                 out |= set(_re.findall("«([^»]*)»", x))
-    elif k == "prod":
+    elif k in ("prod", "bitunion"):
         out |= a[3].free_vars() - {a[1]}
     elif k == "ite":
         out |= a[2].free_vars() | a[3].free_vars()
@@ -195,9 +195,9 @@ def atom_subst(a, m):
             else:
                 out.append(x)
         return ("call", a[1]) + tuple(out)
-    if k == "prod":
+    if k in ("prod", "bitunion"):
         m2 = {kk: vv for kk, vv in m.items() if kk != a[1]}
-        return ("prod", a[1], a[2], a[3].subst(m2))
+        return (k, a[1], a[2], a[3].subst(m2))
     if k == "ite":
         return ("ite", cond_subst(a[1], m), a[2].subst(m), a[3].subst(m)) + tuple(m.get(x, x) if isinstance(x, str) else x for x in a[4:])
     return a
@@ -233,11 +233,11 @@ def atom_key(a, depth=0):
             else:
                 parts.append(str(x))
         return "%s(%s)" % (a[1], ",".join(parts))
-    if k == "prod":
+    if k in ("prod", "bitunion"):
         # canonical dummy name
         dummy = "§%d" % depth
         body = a[3].subst({a[1]: dummy})
-        return "Π[%s<%s](%s)" % (dummy, a[2], body.key(depth + 1))
+        return "%s[%s<%s](%s)" % ("Π" if k == "prod" else "⋃", dummy, a[2], body.key(depth + 1))
     if k == "ite":
         return "ite(%s ? %s : %s)" % (a[1], a[2].key(depth + 1), a[3].key(depth + 1))
     return repr(a)
@@ -421,7 +421,7 @@ def atom_any(a, pred):
         subs = [a[2]]
     elif k == "pow":
         subs = [a[1]]
-    elif k == "prod":
+    elif k in ("prod", "bitunion"):
         subs = [a[3]]
     elif k == "ite":
         subs = [a[2], a[3]]
@@ -607,3 +607,10 @@ def equal_modulo_order(e1, e2, classes, symmetric=()):
         if d != 0:
             return False, "term %s: code has coefficient %s, reference %s" % (k, n1.get(k, 0), n2.get(k, 0))
     return True, ""
+
+
+def bitop(name, a, b):
+    """Commutative bit operation with canonical operand order (the interpreter builds the same)."""
+    a, b = lift(a), lift(b)
+    x, y = sorted((a, b), key=lambda t: t.key())
+    return Expr.atom(("call", name, x, y))
